@@ -661,14 +661,24 @@ def check_index_gate_fold(run, tree):
     for label, mk, want, nontrivial in cases:
         construct = "%s.__getitem__[%s]" % (ARRAY_Q, label)
         try:
-            a = ev.instantiate(ci, [], {"values": RawTok("A", (4,)), "unit": "m", "name": "nm"}, None)
-            try:
-                r = ev.invoke(fi, [a, mk()], {}, None)
-                got = arr_state(r)[0] if isinstance(r, PyObj) else r
-                if isinstance(r, PyObj) and (arr_state(r)[1] != "m" or r._attrs.get("name", r._attrs.get("_name")) != "nm"):
-                    got = ("unit/name lost", arr_state(r))
-            except Raised as e:
-                got = "raises " + e.name
+            def attempt():
+                a = ev.instantiate(ci, [], {"values": RawTok("A", (4,)), "unit": "m", "name": "nm"}, None)
+                try:
+                    r = ev.invoke(fi, [a, mk()], {}, None)
+                    got_ = arr_state(r)[0] if isinstance(r, PyObj) else r
+                    if isinstance(r, PyObj) and (arr_state(r)[1] != "m" or r._attrs.get("name", r._attrs.get("_name")) != "nm"):
+                        got_ = ("unit/name lost", arr_state(r))
+                except Raised as e:
+                    got_ = "raises " + e.name
+                return got_
+            # a test on the CONTENTS of the index (first >= 0, contiguous?) is not decided by the token: every answer is explored,
+            # and the selection must be the one numpy makes with the index as given on each of them
+            from ..models import explore
+            outcomes = explore(attempt)
+            bad_branch = [(assume, g) for assume, g in outcomes if g != want]
+            got = bad_branch[0][1] if bad_branch else want
+            if bad_branch and bad_branch[0][0]:
+                label = "%s; assuming %s" % (label, ", ".join("%s%s" % ("" if v else "NOT ", k[:70]) for k, v in sorted(bad_branch[0][0].items())))
             run.ob(construct, got == want, fi.where(), "a[%s] -> %s%s" % (label, got, "" if got == want else " (required %s)" % (want,)),
                    "a float Array used as index (e.g. a mask multiplied by 1.0) is accepted / a boolean mask is rejected / the selection is a copy, not a view",
                    nontrivial=nontrivial)
